@@ -21,6 +21,19 @@ func ptsArr(ps []Pt) []any {
 	return out
 }
 
+// pointBits: the caller's point objects, bit by bit (nil entries skipped); the library must leave them as they are
+func pointBits(ps []*object.Point) string {
+	out := ""
+	for _, p := range ps {
+		if p != nil {
+			out += hexTriple(p.Lon(), p.Lat(), p.Alt()) + " "
+		}
+	}
+	return out
+}
+
+const pointsModified = "the caller's point objects were modified"
+
 func (w Win) realPoints(ps []Pt) ([]*object.Point, []string, bool) {
 	out := make([]*object.Point, len(ps))
 	desc := make([]string, len(ps))
@@ -41,6 +54,7 @@ func evPointsExt(t *Tracer, w Win, ps []Pt, h, v int64) {
 	if !ok {
 		return // the driver produced a point outside the documented domain: not a case
 	}
+	before := pointBits(pts)
 	o, res := guard(func() (any, error) { return shape.GetExtendedSpatialIdsOnPoints(pts, w.H0+h, w.V0+v) })
 	e := w.ev("PointsExt", map[string]any{"pts": ptsArr(ps), "h": h, "v": v})
 	e.O, e.Real = o, map[string]any{"pts": desc, "h": w.H0 + h, "v": w.V0 + v}
@@ -49,6 +63,9 @@ func evPointsExt(t *Tracer, w Win, ps []Pt, h, v int64) {
 		e.R = w.projExtList(strs(res), &e.Bad)
 	} else {
 		e.Bad = "panic"
+	}
+	if pointBits(pts) != before {
+		e.Bad = pointsModified
 	}
 	t.Emit(e, len(ps) > 0)
 }
@@ -102,6 +119,7 @@ func evPointsSp(t *Tracer, w Win, ps []Pt, z int64) {
 	if !ok {
 		return
 	}
+	before := pointBits(pts)
 	o, res := guard(func() (any, error) { return shape.GetSpatialIdsOnPoints(pts, w.H0+z) })
 	e := w.ev("PointsSp", map[string]any{"pts": ptsArr(ps), "z": z})
 	e.O, e.Real = o, map[string]any{"pts": desc, "z": w.H0 + z}
@@ -110,6 +128,9 @@ func evPointsSp(t *Tracer, w Win, ps []Pt, z int64) {
 		e.R = w.projSpList(strs(res), &e.Bad)
 	} else {
 		e.Bad = "panic"
+	}
+	if pointBits(pts) != before {
+		e.Bad = pointsModified
 	}
 	t.Emit(e, len(ps) > 0)
 }
